@@ -56,6 +56,12 @@ def _inv_id(name: str) -> str | None:
     try:
         return str(_self_task(name).invocation.invocation_id)
     except Exception:  # noqa: BLE001
+        pass
+    try:  # the body may be running as another task (prog2 shares prog's body)
+        app = _app()
+        inv = context.get_dist_invocation_context(app.app_id) or context._get_sync_inv_context_storage().get(app.app_id)
+        return str(inv.invocation_id) if inv is not None else None
+    except Exception:  # noqa: BLE001
         return None
 
 
@@ -106,14 +112,15 @@ def prog(spec: dict) -> int:
         fails = spec.get("fail") or []
         if attempt in fails and not spec.get("fail_after_kids"):
             raise _make_exc(spec.get("exc", "retry"), node, attempt)
-        t = _self_task("prog")
         total = int(spec.get("v", 0))
         kids = spec.get("kids") or []
         if kids:
             if spec.get("group"):
+                # a group is one task: the one named by the first kid
+                t = _self_task(_task_name(kids[0]))
                 total += sum(t.parallelize([(k,) for k in kids]).results)
             else:
-                invs = [t(k) for k in kids]
+                invs = [_self_task(_task_name(k))(k) for k in kids]
                 for inv in invs:
                     total += inv.result
         if attempt in fails:
@@ -121,6 +128,23 @@ def prog(spec: dict) -> int:
         return total
     finally:
         _probe("exit", "prog", (node, attempt))
+
+
+def _task_name(spec: dict) -> str:
+    """Which registered task executes this node: "prog" or "prog2" (same body, different task id,
+    so that a sub-task need not be the main task of its workflow)."""
+    return "prog2" if spec.get("t") == 2 and _has_task("prog2") else "prog"
+
+
+def _has_task(name: str) -> bool:
+    from pynenc.identifiers.task_id import TaskId
+
+    return TaskId(__name__, name) in _app()._tasks
+
+
+def prog2(spec: dict) -> int:
+    """Second task with the body of `prog`."""
+    return prog(spec)
 
 
 def tree(spec: dict) -> int:
